@@ -16,6 +16,7 @@ func main() {
 		"optional annotations, isError, structured content, _meta, nil and empty lists; strings by class: empty, ASCII, CR/LF, U+2028/2029/0085, non-BMP, HTML-sensitive, control, quotes, " +
 		"Unicode spaces, 1 B..1 MiB (thorough: 4 MiB)) on three levels: (1) json.Marshal vs model encoder (canonical JSON and exact bytes), (2) the real client-side decoders vs model parsers " +
 		"on encoded values and on every single-field removal / retyping of them, (3) handler -> real Streamable server (JSON and SSE response modes) -> real client, compared item for item; " +
+		"then on every transport (Streamable JSON / POST-SSE, legacy SSE, stdio) many calls in flight at once (several clients x several goroutines, 1-256 KiB, per-call nonce and checksum), each returned value compared with what that call's handler returned; " +
 		"plus string escaping and SSE framing against the model and a reference reader, handler errors, tool/prompt/resource descriptors. " +
 		"non-trivial = a distinct case in which the decoder (or the end-to-end call) accepted the value",
 		Run: run})
@@ -27,6 +28,7 @@ func run(c *hk.Ctx) {
 	runEncode(c)
 	runDecode(c)
 	runE2E(c)
+	runConcurrent(c)
 }
 
 func op(name string, kv ...any) map[string]any {
